@@ -2,6 +2,7 @@ package regex
 
 import (
 	"regexp"
+	stdsync "sync"
 
 	schema "github.com/jsightapi/jsight-schema-core"
 	"github.com/jsightapi/jsight-schema-core/bytes"
@@ -21,6 +22,7 @@ type RSchema struct {
 	compileOnce   sync.ErrOnce
 	generatorOnce sync.ErrOnceWithValue[*reggen.Generator]
 	generatorSeed int64
+	generatorMu   stdsync.Mutex
 }
 
 var _ schema.Schema = &RSchema{}
@@ -89,6 +91,8 @@ func (s *RSchema) generateExample() ([]byte, error) {
 		return nil, err
 	}
 
+	s.generatorMu.Lock()
+	defer s.generatorMu.Unlock()
 	return []byte(g.Generate(1)), nil
 }
 
